@@ -232,7 +232,7 @@ def main():
     rng = random.Random(seed)
     traces = []
     real_normal = np.random.normal
-    date_sets = [[0, 8], [0, 8, 40], [0, 8, 40, 112], [0, 32, 40]]       # dt = 1, 4, 9 (perfect squares) in units of 1
+    date_sets = [[0, 8], [0, 8, 40], [0, 8, 40, 112], [0, 32, 40], [0, 6, 16, 40, 48], [0, 4, 8, 12, 16, 40]]
     try:
         for kind in ("levy", "chain", "coupling"):
             for mode in ("fixed", "jump", "maxstep"):
@@ -249,6 +249,13 @@ def main():
                                 per.append([(o, rng.choice([-3, -2, -1, 1, 2, 3])) for o in offs])
                         if rep == 0 and mode != "fixed":
                             per = [[] for _ in per] if rng.random() < 0.5 else per        # the no-jump path
+                        if rep == 1:
+                            # every interval carries jumps (running sums must be carried across all of them)
+                            per = []
+                            for i in range(len(dates) - 1):
+                                width = dates[i + 1] - dates[i]
+                                offs = sorted(rng.sample(range(1, width), min(rng.choice([1, 2, 3]), width - 1)))
+                                per.append([(o, rng.choice([-5, -2, 1, 3, 7]) if kind == "levy" else rng.choice([-3, -2, -1, 1, 2, 3])) for o in offs])
                         eps = rng.choice([1, 3, 5, 8, 20, 200])
                         traces.append(run_case(f"p{len(traces)}", kind, mode, dates, per, eps, rng.choice([0, 4, 8]), rng))
     finally:
